@@ -331,10 +331,9 @@ def check_farfield(desc):
     V = np.asarray(g.vertices)
     cen = V.mean(axis=1)
     D = float(np.linalg.norm(g.bounding_box[:, 1] - g.bounding_box[:, 0]))
-    r1 = 2e3 * D
-    if np.imag(k) > 0:
-        r1 = min(r1, 250.0 / np.imag(k))
-    if np.imag(k) < 0:
+    R0 = float(np.max(np.linalg.norm(V, axis=0)))  # distance of the surface from the origin (the far field is taken w.r.t. the origin)
+    r1 = max(2e3 * R0, 1e3 * abs(k) * R0 * R0)
+    if np.imag(k) != 0:
         r1 = min(r1, 250.0 / abs(np.imag(k)))
     lim = []
     for r in (r1, 2 * r1):
@@ -342,7 +341,8 @@ def check_farfield(desc):
         lim.append(r * np.exp(-1j * k * r) * P)
     extr = 2 * lim[1] - lim[0]
     e_lim = og.relerr(F, extr)
-    tol_lim = 50 * (D / r1) ** 2 * (1 + abs(k) * D) ** 2 + 1e-7
+    # remainder after one Richardson step: squares of the amplitude term R0/r and of the phase term |k| R0^2 / r
+    tol_lim = 50 * ((R0 / r1) ** 2 + (abs(k) * R0 * R0 / r1) ** 2) + 1e-7
     if e_lim > tol_lim:
         _fail(f"farfield_limit/{fam}_{op}/{cls}", f"far field differs from lim r e^{{-ikr}} u(r x) by {e_lim:.2e} (tolerance {tol_lim:.1e}), k={k}")
     # translation law
